@@ -17,6 +17,9 @@
        maximal mean, so the shift cancels).
      * row order, LINEAR policies (exact arithmetic, scale=False; RowOrder.v): X'X and X'y do not depend on the order of the rows, so
        fit on the same observations in another order leaves A, X'y, A^-1 and beta of every arm unchanged;
+     * row order, CONTEXT-FREE policies as a statement about the whole object (RowOrderCF.v, RowOrderFacade.v): a per-arm task reads the batch only through
+       the sum, number and emptiness of the arm's rewards, so fit / partial_fit on permuted rows leave the SAME policy object (Thompson's binarizer applied row
+       by row), and the public facade answers both calls alike;
      * row order, LINEAR policies as a statement about the whole object, scale=True INCLUDED (RowOrderLin.v): _RidgeRegression.fit depends on its
        rows only through column sums, X'X and X'y, so on permuted (context, reward) pairs it returns the same regression whatever it held before
        (first fit, partial fits, standardisation fitted or updated); fit and partial_fit on a permuted rectangular batch leave the SAME policy object;
@@ -26,10 +29,12 @@
        arithmetic) the learning policy receives the same reward sum and count for every arm;
      * row order, LSHNearest (LshWhole.v): likewise a query selects the filter of the stored history by "collides with the query in some table",
        so with the same planes permuted histories give permuted selections;
-    ..._partial: LinGreedy's scale law and KNearest row-order invariance are checked by the transformed-twin
+     * REWARD SCALE, LinGreedy (RewardScale.v; exact arithmetic, scale=True or False): multiplying every reward by c multiplies X'y and beta of every arm by c and
+       leaves A, A^-1 and the standardisation untouched - an invariant of fit and of every later partial_fit - so every exploit value x.beta is multiplied by c;
+    ..._partial: KNearest row-order invariance (ties at the k-th distance are broken by position; the property excludes it) is checked by the transformed-twin
     relation on the implementation. *)
 From Coq Require Import List ZArith Bool Arith QArith Qcanon Permutation.
-From MW Require Import Num Assoc AssocFacts Rng Par CF CFInv CFClean CFForget CFSpec Matrix Lin Warm WarmInv Nbr NbrFacts NbrIndep LshFacts Clu Tree CellFacts Mab FacadeCF FacadeArms MoreFacts NumLaws CFAlg Sim Extra QcInst OrderFacts ExpIrrel LinInv FacadeLin LpInv NbrInv CluTreeInv FacadeAll ToyFacts C09All C10All LinForget LinSim MatrixFacts GaussJordan LinSpec NbrIndepGen CluIndep C17Lin WarmIdem C14More LshScale TreeLeaf Rename PopSpec CopyFacts StatFacts CluBatch LinWarm RowOrder NbrRowOrder LshWhole RowOrderLin.
+From MW Require Import Num Assoc AssocFacts Rng Par CF CFInv CFClean CFForget CFSpec Matrix Lin Warm WarmInv Nbr NbrFacts NbrIndep LshFacts Clu Tree CellFacts Mab FacadeCF FacadeArms MoreFacts NumLaws CFAlg Sim Extra QcInst OrderFacts ExpIrrel LinInv FacadeLin LpInv NbrInv CluTreeInv FacadeAll ToyFacts C09All C10All LinForget LinSim MatrixFacts GaussJordan LinSpec NbrIndepGen CluIndep C17Lin WarmIdem C14More LshScale TreeLeaf Rename PopSpec CopyFacts StatFacts CluBatch LinWarm RowOrder NbrRowOrder LshWhole RowOrderLin RowOrderCF RowOrderFacade RewardScale.
 Import ListNotations.
 
 Theorem C20_renamed_arm_sees_the_same_reward_batches :
@@ -61,6 +66,83 @@ Theorem C20_mean_shift_law :
   add N (div N (nsum N l) (of_Z N (Z.of_nat (length l)))) c.
 Proof. exact @mean_shift. Qed.
 Print Assumptions C20_mean_shift_law.
+
+Theorem C20_ridge_fit_reward_scale :
+  forall (R G : Type) (N : Num R),
+  NumLaws N ->
+  forall (d : nat) (c : R) (m1 m2 m1' : (@ridge R G)) (x : (@mat R)) (y : (@vec R)),
+  scaled N c m1 m2 ->
+  ridge_fit N d m1 x y = Some m1' ->
+  exists m2' : (@ridge R G), ridge_fit N d m2 x (map (mul N c) y) = Some m2' /\ scaled N c m1' m2'.
+Proof. exact @ridge_fit_reward_scale. Qed.
+Print Assumptions C20_ridge_fit_reward_scale.
+
+Theorem C20_linear_fit_reward_scale :
+  forall (R A G : Type) (N : Num R),
+  NumLaws N ->
+  forall (aeqb : A -> A -> bool) (c : R) (s : (@lin R A G)) (g : G) (ds : list A) (rs : list R) (cx : (@mat R)),
+  length ds = length rs ->
+  snd (lin_fit N aeqb s g ds rs cx) = true ->
+  snd (lin_fit N aeqb s g ds (map (mul N c) rs) cx) = true /\
+  lin_scaled N c (fst (lin_fit N aeqb s g ds rs cx)) (fst (lin_fit N aeqb s g ds (map (mul N c) rs) cx)).
+Proof. exact @lin_fit_reward_scale. Qed.
+Print Assumptions C20_linear_fit_reward_scale.
+
+Theorem C20_linear_partial_fit_reward_scale :
+  forall (R A G : Type) (N : Num R),
+  NumLaws N ->
+  forall (aeqb : A -> A -> bool) (c : R) (s1 s2 : (@lin R A G)) (g : G) (ds : list A) (rs : list R) (cx : (@mat R)),
+  length ds = length rs ->
+  lin_scaled N c s1 s2 ->
+  snd (lin_partial_fit N aeqb s1 g ds rs cx) = true ->
+  snd (lin_partial_fit N aeqb s2 g ds (map (mul N c) rs) cx) = true /\
+  lin_scaled N c (fst (lin_partial_fit N aeqb s1 g ds rs cx))
+    (fst (lin_partial_fit N aeqb s2 g ds (map (mul N c) rs) cx)).
+Proof. exact @lin_partial_fit_reward_scale. Qed.
+Print Assumptions C20_linear_partial_fit_reward_scale.
+
+Theorem C20_lingreedy_exploit_value_scales :
+  forall (R A G : Type) (N : Num R),
+  NumLaws N ->
+  forall (RG : RngOps R G) (s : (@lin R A G)) (c : R) (m1 m2 : (@ridge R G)) (g : G) (x : (@mat R)),
+  l_kind s = RRidge ->
+  scaled N c m1 m2 ->
+  fst (fst (ridge_predict N RG s m2 g x)) = map (mul N c) (fst (fst (ridge_predict N RG s m1 g x))).
+Proof. exact @lingreedy_exploit_value_scales. Qed.
+Print Assumptions C20_lingreedy_exploit_value_scales.
+
+Theorem C20_context_free_fit_on_permuted_rows_same_object :
+  forall (R A : Type) (N : Num R),
+  NumLaws N ->
+  forall (aeqb : A -> A -> bool) (s : (@cf R A)) (rows rows' : list (A * R)),
+  Permutation rows rows' ->
+  cf_fit N aeqb s (map fst rows) (map snd rows) = cf_fit N aeqb s (map fst rows') (map snd rows').
+Proof. exact @cf_fit_permutation. Qed.
+Print Assumptions C20_context_free_fit_on_permuted_rows_same_object.
+
+Theorem C20_context_free_partial_fit_on_permuted_rows_same_object :
+  forall (R A : Type) (N : Num R),
+  NumLaws N ->
+  forall (aeqb : A -> A -> bool) (s : (@cf R A)) (rows rows' : list (A * R)),
+  Permutation rows rows' ->
+  cf_partial_fit N aeqb s (map fst rows) (map snd rows) =
+  cf_partial_fit N aeqb s (map fst rows') (map snd rows').
+Proof. exact @cf_partial_fit_permutation. Qed.
+Print Assumptions C20_context_free_partial_fit_on_permuted_rows_same_object.
+
+Theorem C20_context_free_training_ignores_the_row_order_at_the_facade :
+  forall (R A G : Type) (N : Num R),
+  NumLaws N ->
+  forall (aeqb : A -> A -> bool) (RG : RngOps R G) (m : (@mab R A G)) (c : (@cf R A)) (rows rows' : list (A * R))
+    (o o' : (@oracle R A)),
+  m_imp m = ICf c ->
+  Permutation rows rows' ->
+  step N aeqb RG m (Fit (map fst rows) (map snd rows) None o) =
+  step N aeqb RG m (Fit (map fst rows') (map snd rows') None o') /\
+  step N aeqb RG m (PartialFit (map fst rows) (map snd rows) None o) =
+  step N aeqb RG m (PartialFit (map fst rows') (map snd rows') None o').
+Proof. exact @context_free_training_ignores_the_row_order. Qed.
+Print Assumptions C20_context_free_training_ignores_the_row_order_at_the_facade.
 
 Theorem C20_ridge_fit_invariant_under_row_permutation :
   forall (R G : Type) (N : Num R),
@@ -262,4 +344,9 @@ Proof.
   split; [left; reflexivity|]. split; [reflexivity|]. split; [apply Permutation_rev|].
   split; [vm_compute; discriminate|]. split; [reflexivity|]. split; vm_compute; reflexivity.
 Qed.
+
+Example C20_reward_scale_hypotheses_satisfiable :
+  length (ds_of ex20_rows) = length (rs_of ex20_rows) /\
+  snd (lin_fit QcNum Z.eqb ex20_s0 0%nat (ds_of ex20_rows) (rs_of ex20_rows) (cx_of ex20_rows)) = true.
+Proof. split; vm_compute; reflexivity. Qed.
 
